@@ -39,6 +39,8 @@ SKELETONS = {
                 [dict(sel=".n", text="T0", bg="B0")]),
     "nested3": ("@supports (display: flex) {{ @media print {{ @media (min-width: 1px) {{ .d {{ color: {T0}; }} }} u {{ color: {T1}; }} }} }}\n",
                 [dict(sel=".d", text="T0", bg=None), dict(sel="u", text="T1", bg=None)]),
+    "invalid-colour": ("p {{ color: inherit; }}\nq {{ color: {T0}; }}\nz {{ color: {T1}; background-color: notacolour; }}\n",
+                       [dict(sel="p", invalid=True, text=None, bg=None), dict(sel="q", text="T0", bg=None), dict(sel="z", invalid=True, text="T1", bg=None)]),
     "root-var": (":root {{ --c: {T0}; }}\np {{ color: var(--c); }}\n", [dict(sel="p", text="T0", bg=None, var="--c")]),
     "html-var-bg": ("html {{ --c: {T0}; --b: {B0}; }}\np {{ color: var(--c); background-color: var(--b); }}\n",
                     [dict(sel="p", text="T0", bg="B0", var="--c")]),
@@ -51,7 +53,7 @@ SKELETONS = {
     "html-color": ("html {{ color: {T0}; background-color: {B0}; }}\n", [dict(sel="html", text="T0", bg="B0")]),
 }
 
-QUICK = ["plain", "with-bg", "two-rules", "important", "repeated", "comment-other-decls", "media", "supports", "nested2", "nested3", "root-var", "html-var-bg",
+QUICK = ["plain", "with-bg", "two-rules", "important", "repeated", "comment-other-decls", "media", "supports", "nested2", "nested3", "invalid-colour", "root-var", "html-var-bg",
          "chained-var", "var-fallback", "var-undefined-fallback", "shared-var", "root-color", "html-color"]
 
 META = dict(
@@ -235,6 +237,12 @@ def run_job(job):
         varval = {}      # custom property -> (colour, spelled value) as the tool sees it after earlier rules rewrote it
         reported = {}    # custom property -> list of (rule, reported value)
         for r in rules:
+            if r.get("invalid"):
+                fail += 1
+                eng.oblige("rule %s: unparseable colour => needs attention, listed by selector" % r["sel"], sbool(r["sel"] in failed_sels))
+                eng.oblige("rule %s: unparseable colour => left unchanged" % r["sel"],
+                           sbool(decls.get((r["sel"], "color")) == orig.get((r["sel"], "color"))))
+                continue
             tcol = cols[r["text"]][0]
             if r.get("var") and r["var"] in varval:
                 tcol = varval[r["var"]][0]
@@ -365,6 +373,11 @@ def _judge(css, rules, cols, default_bg_rgb, default_bg, mode, premium):
     varval = {}
     final_expect = {}
     for r in rules:
+        if r.get("invalid"):
+            exp[2] += 1
+            if r["sel"] not in failed_sels or decls.get((r["sel"], "color")) != orig.get((r["sel"], "color")):
+                bad.append("rule %s (unparseable colour) not listed or changed" % r["sel"])
+            continue
         t = cols[r["text"]]
         if r.get("var") and r["var"] in varval:
             t = varval[r["var"]]
